@@ -39,7 +39,7 @@ def main():
             res["pytest_tail"] = out.strip().splitlines()[-1] if out.strip() else ""
         for c in checks:
             t0 = time.time()
-            rc, out = sh(f"/venv/bin/python harness/check.py {c} --tier {a.tier}", cwd=str(V), env=dict(os.environ, KRROOD_VERIF_REPO=wt), timeout=7200)
+            rc, out = sh(f"/venv/bin/python harness/check.py {c} --tier {a.tier}", cwd=str(V), env=dict(os.environ, KRROOD_VERIF_REPO=wt, KRROOD_VERIF_EVIDENCE_DIR=f"/tmp/seeded_ev_{os.getpid()}"), timeout=7200)
             viol = [l for l in out.splitlines() if l.startswith("VIOLATION")]
             res["checks"][c] = {"exit": rc, "violation_lines": viol, "wall_s": round(time.time() - t0, 1),
                                 "tail": out.strip().splitlines()[-12:]}
